@@ -269,3 +269,36 @@ Theorem fprinter_two_step_accepts : forall o counts bits st req mask g y,
   exists z, fingerprint_query o counts bits st req mask = Ok z.
 Proof. exact fprinter_two_step_accepts. Qed.
 Print Assumptions fprinter_two_step_accepts.
+
+(* ============ the database route (model M3): FingerprintDatabase.fold = row-wise fold, source untouched ============ *)
+From E3FP Require Import Model.Db Proofs.DbBase Proofs.DbInv Proofs.DbFrame Proofs.DbFold.
+
+(* positions of every folded row are those of the fingerprint fold of that row (any kind, method 0) *)
+Theorem db_fold_rows : forall k k' bits lv nm nb r a',
+  fp_fold (row_fp k bits lv nm r) nb 0 = Ok a' ->
+  fidx (row_fp k' nb lv nm (fold_row k nb r)) = fidx a' /\ fbits a' = nb /\ flevel a' = lv /\ fname a' = nm.
+Proof. exact db_fold_rows. Qed.
+Print Assumptions db_fold_rows.
+
+(* each stored value of a folded row is the OR (bit) / sum (count, float) over the colliding source entries *)
+Theorem db_fold_values : forall k nb r j,
+  In j (map fst (fold_row k nb r)) ->
+  rget (fold_row k nb r) j = ksum k (map snd (filter (fun iv => fst iv mod nb =? j) r)).
+Proof. exact db_fold_values. Qed.
+Print Assumptions db_fold_values.
+
+(* the new database: same names and level, requested type, rows = row-wise fold of the source rows *)
+Theorem db_fold_view : forall s h oid o nb ko s' hn,
+  state_ok s -> lookup s h = Some (oid, o) -> step s (OpFold h nb ko) = (s', Ok (ONew hn)) ->
+  let k' := match ko with Some k => k | None => okind o end in
+  exists d', handle_db s' hn = Some d' /\ dkind d' = k' /\ dbits d' = Some nb /\ dlevel d' = olevel o /\ dnames d' = onames o
+    /\ drows d' = map (fun r => (if kind_eqb (okind o) k' then (fun x => x) else cast_row k') (filter (fun iv => fst iv <? nb) (fold_row (okind o) nb r)))
+                      (drows (view (bufs s) o)).
+Proof. exact db_fold_view. Qed.
+Print Assumptions db_fold_view.
+
+(* folding leaves every live database - the source included - exactly as it was (buffer-level ownership, any state) *)
+Theorem db_fold_frame : forall s h nb ko g d,
+  state_ok s -> handle_db s g = Some d -> handle_db (fst (step s (OpFold h nb ko))) g = Some d.
+Proof. exact db_fold_frame. Qed.
+Print Assumptions db_fold_frame.
